@@ -16,6 +16,8 @@ import (
 type Threads struct{}
 
 type pendingGo struct {
+	tid    int
+	vc     vclock
 	fn     *FuncV
 	args   []Value
 	invoke *ssa.CallCommon
@@ -26,7 +28,6 @@ type pendingGo struct {
 // blockedSignal unwinds a goroutine that cannot make progress in sequential mode.
 type blockedSignal struct{ what string }
 
-func (vm *VM) noteAccess(p PtrV, write bool) {}
 
 // schedPoint: a place where another thread may run.  With an interposed operation registered
 // (vInterpose) and budget left, the engine forks here: either the registered operation of a
@@ -37,7 +38,7 @@ func (vm *VM) noteAccess(p PtrV, write bool) {}
 // the operation under test.
 func (vm *VM) schedPoint(what string) {
 	P := vm.P
-	if P.interpose == nil || P.interposeBudget <= 0 || P.curThread != 1 || vm.inInit {
+	if P.interpose == nil || P.interposeBudget <= 0 || P.curThread != 1 || vm.inInit || P.inSchedPoint {
 		return
 	}
 	if what == "atomic" && !P.interposeAtomics {
@@ -83,6 +84,15 @@ func (vm *VM) spawn(fr *Frame, x *ssa.Go) {
 			pg.fn = fv
 		}
 	}
+	if rs := vm.P.race; rs != nil && rs.on {
+		// goroutine start: everything before `go` happens before the new goroutine
+		my := rs.clockOf(vm.P.curThread)
+		pg.tid = rs.nextTid
+		rs.nextTid++
+		pg.vc = my.copy()
+		pg.vc[pg.tid] = 1
+		my[vm.P.curThread]++
+	}
 	vm.P.pending = append(vm.P.pending, pg)
 }
 
@@ -96,9 +106,20 @@ func (vm *VM) runPendingGoroutines() int {
 		func() {
 			saved := vm.cur
 			savedDepth := vm.depth
+			savedThread := vm.P.curThread
+			savedHeld := vm.P.heldOrder
+			if pg.tid != 0 {
+				vm.P.curThread = pg.tid
+				vm.P.heldOrder = nil
+				if rs := vm.P.race; rs != nil {
+					rs.vc[pg.tid] = pg.vc
+				}
+			}
 			defer func() {
 				vm.cur = saved
 				vm.depth = savedDepth
+				vm.P.curThread = savedThread
+				vm.P.heldOrder = savedHeld
 				if r := recover(); r != nil {
 					if _, ok := r.(*blockedSignal); ok {
 						parked++
